@@ -8,10 +8,10 @@ namespace WowSrp
 
 /-- C18: MD5(seed | session key) keys both RC4 and the HMAC; each entered value is MACed after encryption -/
 theorem C18_source_layout :
-    Gen.layoutMatrixCardNew = [["seed.to_le_bytes()", "session_key"], ["key:&md5"]] ∧
-    Gen.layoutMatrixCardEnter = [["value"]] := by decide
+    Gen.layoutMatrixCardNew = [["seed.to_le_bytes()", "session_key"], ["key:&md5"], ["ctors:Context::new,Hmac::<Sha1>::new_from_slice", "methods:compute,consume,consume", "control:", "rebound:md5", "tail:Self{challenge_count,height,width,coordinates,hmac,rc4,}"]] ∧
+    Gen.layoutMatrixCardEnter = [["value"], ["ctors:", "methods:update", "control:", "rebound:", "tail:"]] := by decide +kernel
 
 /-- C18: matrix_card.rs and rc4.rs keep no state outside the verifier / card objects -/
-theorem C18_source_no_hidden_state : Gen.matrixCardModuleHasNoSharedState = true := by decide
+theorem C18_source_no_hidden_state : Gen.matrixCardModuleHasNoSharedState = true := by decide +kernel
 
 end WowSrp
